@@ -111,6 +111,31 @@ def section_algebra():
             except Exception as ex:
                 fail("algebra", "adjoint raised", error=repr(ex)[:300])
 
+    # integer powers of SINGLE-term forms (monomials with number-dependent coefficients and unmatched creators or annihilators), incl. power 0
+    for layout, D in (([a], 14), ([a, c], 12), ([l, c], 12), ([a, l], 9), ([s, c], 2)):
+        ops = sort_ops(layout)
+        rep = Rep(ops, D=D)
+        rnd = random.Random(len(ops) * 77 + D + SEED_OFF)
+        vacuous = True
+        for trial in range(16 * (3 if THOROUGH else 1)):
+            z = rand_nof(rnd, ops, 1)
+            cases += 1
+            m = max_shift(z)
+            Z = mat(rep, z)
+            for k in (0, 1, 2, 3):
+                try:
+                    want = np.linalg.matrix_power(Z, k)
+                    cols = rep.interior(k * m + 1)
+                    vacuous = vacuous and not len(cols)
+                    for nm, got in ((f"z**{k}", z ** k), (f"z**Integer({k})", z ** sympy.Integer(k))):
+                        err = compare_on_interior(rep, mat(rep, got), want, k * m + 1)
+                        if err > 1e-7:
+                            fail("algebra", f"{nm} of a single-term form differs from the matrix power", layout=[str(o) for o in ops], z=z.terms, err=err)
+                except Exception as ex:
+                    fail("algebra", f"z**{k} raised", layout=[str(o) for o in ops], z=z.terms, error=repr(ex)[:300])
+        if vacuous:
+            fail("algebra", "battery error: no interior states for the power checks", layout=[str(o) for o in ops])
+
 
 def section_convert():
     global cases
